@@ -44,6 +44,7 @@ Step(e) ==
       [] e.op = "Reset"    -> Reset(e.n, <<e.p, e.k>>)
       [] e.op = "COp"      -> COp(e.n, <<e.p, e.k>>, FixOp(e.o))
       [] e.op = "Validate" -> Check(e.n)
+      [] e.op = "ValidateCollect" -> CheckCollect(e.n)
 
 TraceNext ==
     /\ l <= Len(Traces[tid].events)
@@ -83,9 +84,13 @@ Report ==
 \* state invariants, evaluated on every observed state (a state CONSTRAINT: TLC evaluates
 \* unprimed operator applications much faster than primed ones)
 BadState ==
-    {n \in {"C01_AllValid", "C12_Fresh"} :
+    {n \in {"C01_AllValid", "C12_Fresh", "C11_ReturnImplies", "C11_CollectIffRaise", "C11_ItemsHeld", "C15_Error"} :
         CASE n = "C01_AllValid" -> ~C01_AllValid
-          [] n = "C12_Fresh"    -> ~C12_Fresh}
+          [] n = "C12_Fresh"    -> ~C12_Fresh
+          [] n = "C11_ReturnImplies"   -> ~C11_ReturnImplies
+          [] n = "C11_CollectIffRaise" -> ~C11_CollectIffRaise
+          [] n = "C11_ItemsHeld"       -> ~C11_ItemsHeld
+          [] n = "C15_Error"           -> ~C15_Error}
 ReportState ==
     l > 1 => PrintT(<<"TRACE", ToJson([t |-> tid, l |-> l - 1, bo |-> {}, bi |-> BadState])>>)
 
